@@ -5,6 +5,7 @@ package main
 
 import (
 	"fmt"
+	"math"
 	"strings"
 
 	vc "verifcommon"
@@ -24,13 +25,16 @@ func randomConfig(g *vc.Rng, profile string, i int) config {
 		case 3:
 			c.warnCap = 64 // practically never full
 		}
-		c.handler = g.Intn(3) == 0
+		c.handler = []int{0, 0, 0, 1, 1, 2, 3}[g.Intn(7)]
+		if g.Intn(8) == 0 {
+			c.warnCap = -2
+		}
 		c.fresh = i%10 == 7
 	case "c11":
 		if g.Intn(3) == 0 {
 			c.warnCap = 1 + g.Intn(4)
 		}
-		c.handler = g.Intn(5) == 0
+		c.handler = []int{0, 0, 0, 0, 1, 2, 3}[g.Intn(7)]
 		c.fresh = i%4 == 3
 	default:
 		// profile c10 keeps away from what C11 / C16 are about (rotations, fresh sessions, a Warnings channel
@@ -49,13 +53,16 @@ type weights struct {
 func profileWeights(p string) weights {
 	switch p {
 	case "c11":
-		return weights{rotate: 2, hostile: 0, close: 1, service: 1, dup: 0, drain: 1}
+		return weights{rotate: 2, hostile: 0, close: 2, service: 1, dup: 0, drain: 1}
 	case "c16":
-		return weights{rotate: 1, hostile: 3, close: 1, service: 2, dup: 1, drain: 1}
+		return weights{rotate: 1, hostile: 3, close: 3, service: 2, dup: 1, drain: 1}
 	default:
 		return weights{rotate: 0, hostile: 0, close: 2, service: 3, dup: 3, drain: 0}
 	}
 }
+
+// salts at the corners of int64 (the field is a 64-bit integer without any structure)
+var extremeSalts = []int64{0, 1, -1, 1 << 32, (1 << 32) + 5, -(1 << 40), math.MaxInt64, math.MinInt64, math.MaxInt32, math.MinInt32}
 
 var gzDamage = []string{"crc", "isize", "deflate"}
 
@@ -271,6 +278,8 @@ func (r *run) playRandom(g *vc.Rng, profile string) {
 				salt = saltHistory[len(saltHistory)-1]
 			case len(saltHistory) > 1 && g.Intn(4) == 0:
 				salt = saltHistory[g.Intn(len(saltHistory))]
+			case g.Intn(5) == 0:
+				salt = extremeSalts[g.Intn(len(extremeSalts))]
 			default:
 				nextSalt++
 			}
@@ -308,6 +317,8 @@ func (r *run) playRandom(g *vc.Rng, profile string) {
 				i := g.Intn(len(written))
 				j := g.Intn(len(written[i].ids))
 				b = &bodySpec{op: "badsalt", ref: fmt.Sprintf("@%d.%d.%d", writtenT[i], written[i].k, j), salt: salt}
+			case pick < 9 && r.acksWritten() > 0: // a msgs_ack of the client (sent under the old salt: a server rejects it too)
+				b = &bodySpec{op: "badsalt", ref: fmt.Sprintf("ack.%d", g.Intn(r.acksWritten())), salt: salt}
 			default: // an id the client never used
 				b = &bodySpec{op: "badsalt", ref: fmt.Sprintf("%d", 4*(1000000+g.Intn(1000))), salt: salt}
 			}
